@@ -136,4 +136,97 @@ theorem firstWithRest_find (p : Frame → Bool) : ∀ l : List Frame,
     simp only [firstWithRest, List.find?_cons]
     by_cases h : p f <;> simp [h, ih]
 
+/-! ### header block assembly (code) against RFC 7540 §6.2/§6.10 (specification) -/
+
+theorem flag4 : ∀ fl : UInt8, (fl &&& 4 != 0) = flagSet fl 4 := by apply all_u8; decide +kernel
+theorem flag8 : ∀ fl : UInt8, (fl &&& 8 != 0) = flagSet fl 8 := by apply all_u8; decide +kernel
+theorem flag32 : ∀ fl : UInt8, (fl &&& 0x20 != 0) = flagSet fl 32 := by apply all_u8; decide +kernel
+theorem ty_ne9 : ∀ t : UInt8, (t != tyContinuation) = !(t.toNat == 9) := by apply all_u8; decide +kernel
+
+/-- `header_block_fragment` is the header block fragment of RFC 7540 §6.2 -/
+theorem fragmentOf_eq (f : Frame) : fragmentOf f = headersFragment f := by
+  unfold fragmentOf headersFragment padded hasPriority
+  simp only [flag8, flag32, ge_iff_le]
+  by_cases h8 : flagSet f.flags 8 = true <;> by_cases h32 : flagSet f.flags 32 = true <;>
+    rcases hp : f.payload with _ | ⟨pl, r⟩ <;> simp [h8, h32]
+  · by_cases h5 : 5 ≤ r.length <;> simp [h5]
+  · by_cases h4 : 4 ≤ r.length <;> simp [h4]
+
+theorem contLoop_complete (sid : Nat) : ∀ (rest : List Frame) (b : Bytes),
+    continuations sid rest = .complete b → contLoop (rest.filter (fun f => f.sid == sid)) = b := by
+  intro rest
+  induction rest with
+  | nil => intro b h; simp [continuations] at h
+  | cons f r ih =>
+    intro b h
+    simp only [continuations] at h
+    by_cases hc : (isContinuation f && f.sid == sid) = true
+    · simp only [hc, if_true] at h
+      simp only [Bool.and_eq_true] at hc
+      have hty : (f.ty != tyContinuation) = false := by
+        rw [ty_ne9]; have := hc.1; simp only [isContinuation] at this; simp [this]
+      simp only [List.filter_cons, hc.2, if_true, contLoop, hty, Bool.false_eq_true, if_false, flag4]
+      by_cases he : endHeaders f = true
+      · simp only [he, if_true] at h
+        have he' : flagSet f.flags 4 = true := he
+        simp only [he', if_true]
+        cases h; rfl
+      · have he0 : endHeaders f = false := by simpa using he
+        have he' : flagSet f.flags 4 = false := he0
+        simp only [he0, Bool.false_eq_true, if_false] at h
+        simp only [he', Bool.false_eq_true, if_false]
+        cases hr : continuations sid r with
+        | complete b' =>
+          rw [hr] at h
+          simp only at h
+          cases h
+          rw [ih b' hr]
+        | incomplete => rw [hr] at h; simp at h
+        | malformed => rw [hr] at h; simp at h
+    · have hc' : (isContinuation f && f.sid == sid) = false := by simpa using hc
+      simp only [hc', Bool.false_eq_true, if_false] at h
+      cases h
+
+/-- a complete header block in the sense of the RFC is what `header_block` assembles -/
+theorem headerBlockOf_complete (f : Frame) (rest : List Frame) (b : Bytes)
+    (h : headerBlock f rest = .complete b) : headerBlockOf (f :: rest) = some b := by
+  unfold headerBlock at h
+  simp only [headerBlockOf]
+  rw [fragmentOf_eq]
+  cases hf : headersFragment f with
+  | none => rw [hf] at h; simp at h
+  | some frag =>
+    rw [hf] at h
+    simp only at h ⊢
+    rw [flag4]
+    by_cases he : endHeaders f = true
+    · have he' : flagSet f.flags 4 = true := he
+      simp only [he, if_true] at h
+      simp only [he', if_true]
+      cases h; rfl
+    · have he0 : endHeaders f = false := by simpa using he
+      have he' : flagSet f.flags 4 = false := he0
+      simp only [he0, Bool.false_eq_true, if_false] at h
+      simp only [he', Bool.false_eq_true, if_false]
+      cases hr : continuations f.sid rest with
+      | complete b' =>
+        rw [hr] at h
+        simp only at h
+        cases h
+        rw [contLoop_complete f.sid rest b' hr]
+      | incomplete => rw [hr] at h; simp at h
+      | malformed => rw [hr] at h; simp at h
+
+theorem dropWhile_firstWithRest (p : Frame → Bool) : ∀ l : List Frame,
+    l.dropWhile (fun f => !p f) = match firstWithRest p l with | some (f, r) => f :: r | none => [] := by
+  intro l
+  induction l with
+  | nil => rfl
+  | cons g gs ih =>
+    simp only [List.dropWhile, firstWithRest]
+    by_cases h : p g = true
+    · simp [h]
+    · have h' : p g = false := by simpa using h
+      simp [h', ih]
+
 end Huginn.Lemmas.Akamai
